@@ -98,6 +98,27 @@ def lean_sources():
     return [f for f in files if f.exists()]
 
 
+IMPORT_RE = re.compile(r"^\s*import\s+(StraxModel(?:\.\w+)*)\s*$", re.M)
+
+
+def import_closure(modules):
+    """Lean source files reachable from the given modules (and from Main.lean, the driver) through
+    `import StraxModel.…` lines: the files a property's verdict actually depends on."""
+    seen, todo = {}, list(modules)
+    main = LEAN / "Main.lean"
+    if main.exists():
+        seen[main] = True
+        todo += IMPORT_RE.findall(main.read_text())
+    while todo:
+        m = todo.pop()
+        f = props_file(m)
+        if f in seen or not f.exists():
+            continue
+        seen[f] = True
+        todo += IMPORT_RE.findall(f.read_text())
+    return sorted(seen)
+
+
 def forbidden_hits(files=None):
     hits = []
     for f in files or lean_sources():
@@ -161,9 +182,9 @@ def axiom_audit(modules):
     out = p.stdout + p.stderr
     res = {}
     # "'Name' depends on axioms: [a, b]"  or "'Name' does not depend on any axioms"
-    for m in re.finditer(r"^'(.+?)' depends on axioms:\s*\[([^\]]*)\]", out, re.S | re.M):
+    for m in re.finditer(r"^'([^\n]+?)' depends on axioms:\s*\[([^\]]*)\]", out, re.M):
         res[m.group(1)] = sorted(a.strip() for a in m.group(2).replace("\n", " ").split(",") if a.strip())
-    for m in re.finditer(r"^'(.+?)' does not depend on any axioms", out, re.M):
+    for m in re.finditer(r"^'([^\n]+?)' does not depend on any axioms", out, re.M):
         res[m.group(1)] = []
     return names, res, out, p.returncode
 
@@ -267,7 +288,7 @@ class Ctx:
     # -- step 1
     def prove(self):
         mods = list(getattr(self.mod, "LEAN_MODULES", []))
-        hits = forbidden_hits()
+        hits = forbidden_hits(import_closure(mods) if mods else None)
         if hits:
             self.prove_ok = False
             self.violation("audit:forbidden-token", "audit", None, {"hits": hits[:20]},
